@@ -29,8 +29,8 @@ ASSUMPTIONS = [
     "objects are picklable by construction (classes importable from vlib.userclasses)",
 ]
 SHARDS = {"quick": 12, "thorough": 14}
-FLOORS = {"quick": {"huge_run_payloads": 3, "round_trips": 2500, "renamed_loads": 1000, "aliased_objects": 100, "big_payloads": 40, "dumps_over_older_longer_content": 500},
-          "thorough": {"huge_run_payloads": 60, "round_trips": 50000, "renamed_loads": 20000, "aliased_objects": 2000, "big_payloads": 800, "dumps_over_older_longer_content": 10000}}
+FLOORS = {"quick": {"huge_run_payloads": 3, "round_trips": 2500, "renamed_loads": 1500, "aliased_objects": 100, "big_payloads": 40, "dumps_over_older_longer_content": 500},
+          "thorough": {"huge_run_payloads": 60, "round_trips": 50000, "renamed_loads": 30000, "aliased_objects": 2000, "big_payloads": 800, "dumps_over_older_longer_content": 10000}}
 
 EXTS = ["", ".pkl", ".z", ".gz", ".bz2", ".xz", ".lzma"]
 METHODS = ["zlib", "gzip", "bz2", "lzma", "xz"]
